@@ -524,6 +524,48 @@ def check_fields(fg, res, val_o):
                                 none_t = other
                             okc, _ = edge_fail_closed(b, sblock, none_t)
                             found[name] = ("ok" if okc else "open", b, bi, "input_regs.get(%s): None edge %s" % (name, "only reaches Err" if okc else "can reach Ok"))
+            # get()/get_mut() on a table that has one entry per party (`vec![x; p_max]`): the None edge is the
+            # range test of the index
+            if any(n.rsplit("::", 1)[-1] in ("get", "get_mut") for n in names) and len(t["args"]) == 2 and t["args"][1]["k"] != "const" and t["args"][0]["k"] != "const":
+                ix = SliceInfo(fg, fg.operand_nodes(k, t["args"][1]))
+                ixf = ix.field_names(CTX)
+                if len(ixf) == 1 and list(ixf)[0] in ("p_own", "p_eval", "p_out"):
+                    name = list(ixf)[0]
+                    recv = SliceInfo(fg, fg.operand_nodes(k, t["args"][0]))
+                    sized = False
+                    for (_rb, _rbi, rt) in recv.calls:
+                        rn = callee_names(rt)
+                        if rn and rn[0].endswith("vec::from_elem") and len(rt["args"]) == 2 and rt["args"][1]["k"] != "const":
+                            ln = SliceInfo(fg, fg.operand_nodes([kk for kk, bb in fam.items() if bb is _rb][0] if any(bb is _rb for bb in fam.values()) else k, rt["args"][1]))
+                            if ln.field_names(CTX) == {"p_max"} or (ln.field_names(CIRC) == {"input_regs"} and not ln.field_names(CTX)):
+                                sized = True
+                    if sized and (found[name] is None or found[name][0] != "ok"):
+                        sw = switch_after_call(b, bi)
+                        if sw is not None:
+                            sblock, tm, other = sw
+                            none_t = tm.get("0", other)
+                            okc, _ = edge_fail_closed(b, sblock, none_t)
+                            found[name] = ("ok" if okc else "open", b, bi, "lookup of %s in a table with one entry per party: None edge %s" % (name, "only reaches Err" if okc else "can reach Ok"))
+                        # seen-table: the flag found at the index is tested (set => reject) and then set
+                        if name == "p_out" and "bool" in t["args"][0]["p"]["ty"]:
+                            dl = t["d"]["l"]
+                            for bj, blk2 in enumerate(b.blocks):
+                                t2 = blk2["t"]
+                                if t2["k"] != "switch" or t2["o"]["k"] == "const" or t2["o"]["p"]["ty"] != "bool":
+                                    continue
+                                back = fg.backward(fg.operand_nodes(k, t2["o"]), node_ok=lambda x: x[0] == k, local=True)
+                                if not any(x[1] == dl for x in back):
+                                    continue
+                                okc, _ = edge_fail_closed(b, bj, t2["else"])
+                                sets = False
+                                for blk3 in b.blocks:
+                                    for st3 in blk3["s"]:
+                                        if st3["k"] == "assign" and st3["p"]["pr"] and st3["r"]["k"] == "use" and st3["r"]["o"]["k"] == "const" and st3["r"]["o"].get("v") in ("1", "true"):
+                                            bk3 = fg.backward([(k, st3["p"]["l"], None)] if False else fg.operand_nodes(k, {"k": "copy", "p": {"l": st3["p"]["l"], "pr": [], "ty": ""}}), node_ok=lambda x: x[0] == k, local=True)
+                                            if any(x[1] == dl for x in bk3):
+                                                sets = True
+                                if okc and sets:
+                                    found["dup"] = ("ok", b, bj, "seen-table: the flag at the party's index rejects when already set and is set otherwise")
             if any(n.endswith("::is_empty") for n in names) and t["args"]:
                 r = SliceInfo(fg, fg.operand_nodes(k, t["args"][0]))
                 if r.field_names(CTX) == {"p_out"}:
